@@ -98,3 +98,18 @@ Definition build_linear (dir : direction) (lv : label_vars) (lmaps : label_maps)
           | Some r => lin_rxns dir isos r (snd nm)
           end) lmaps))
        (fun rs => Ok (mkLM params vars [] (concat rs)))).
+
+(** ---- facts regenerated from the source on every run (GenLabelFacts.v) ----------------------- *)
+Inductive iso_dir_kind := IsoDocumented | IsoUnknown.       (* rate_suffix[i] for i in labelmap *)
+Inductive short_check_kind := ShortLt0 | ShortUnknown.      (* len(labelmap) - total_substrate_labels < 0 -> ValueError *)
+Inductive repl_kind := ReplDict | ReplUnknown.              (* args renamed through one dict: later key wins *)
+Record label_facts := mkLabelFacts {
+  f_iso_dir : iso_dir_kind;
+  f_ext_bit : option bool;          (* character appended for external positions: Some true = "1" *)
+  f_short : short_check_kind;
+  f_repl : repl_kind;
+  f_iso_helpers : bool;             (* the small helpers of label_map.py have the modelled shape *)
+  f_lin_dir : direction;            (* reading direction used by LinearLabelMapper.build_model *)
+  f_lin_helpers : bool              (* the helpers / loop of linear_label_map.py have the modelled shape *)
+}.
+Definition ext_bit_of (f : label_facts) : bool := match f_ext_bit f with Some b => b | None => false end.
